@@ -1,5 +1,5 @@
 import BbRe.Lemmas.InputRootEager
-import BbRe.Lemmas.InputRootPaths
+import BbRe.Lemmas.InputRootState
 /-!
 Vocabulary and concrete objects used by `Properties/C17.lean` (kept out of the
 property namespace, which holds theorems only).
@@ -13,6 +13,11 @@ def noFaults (ops : List Op) : List (List Dig × Op) := ops.map fun o => ([], o)
 /-- The refusals of a CAS backed file. -/
 def isRefusal (o : Out) : Prop :=
   o = .status .eacces ∨ o = .status .ewrongtype ∨ o = .unreachable
+
+/-- The same history without any `UnreadDirectoryMonitor`. -/
+def unmonitored : Op → Op
+  | .merge d _ => .merge d false
+  | op => op
 
 namespace Ex
 
